@@ -6,13 +6,13 @@
 (* arbitrary parameter valuation, the obligations are state invariants     *)
 (* checked at length 0.                                                    *)
 (*                                                                         *)
-(*  Sbf        the closed form of Supply.tla (worst-case pattern)          *)
+(*  Sbf        the closed form of Supply.tla (module ClosedForms)          *)
 (*  LibSbfP/C  the arithmetic of src/supply/periodic.rs / constrained.rs   *)
 (*  LibStP/C   the arithmetic of their specialised service_time            *)
 (* (transcribed; trace validation binds the code to Sbf on recorded        *)
 (* tables, these obligations extend the agreement to all parameters).      *)
 (***************************************************************************)
-EXTENDS Integers
+EXTENDS ClosedForms
 
 VARIABLES
     \* @type: Int;
@@ -23,13 +23,6 @@ VARIABLES
     p,
     \* @type: Int;
     x
-
-MinOf(a, b) == IF a <= b THEN a ELSE b
-
-Sbf(Q, D, P, delta) ==
-    LET gap == (P - Q) + (D - Q)
-        y == delta - gap
-    IN IF y <= 0 THEN 0 ELSE (y \div P) * Q + MinOf(Q, y % P)
 
 \* src/supply/periodic.rs, provided_service
 LibSbfP(Q, P, delta) ==
@@ -82,7 +75,6 @@ Equivalences ==
     /\ Sbf(p, p, p, x) = x
 
 \* the specialised service_time is the exact inverse: the least t with Sbf(t) >= x
-IsLeast(Q, D, P, t, dm) == Sbf(Q, D, P, t) >= dm /\ (t = 0 \/ Sbf(Q, D, P, t - 1) < dm)
 Inverse ==
     /\ IsLeast(q, d, p, LibStC(q, d, p, x), x)
     /\ IsLeast(q, p, p, LibStP(q, p, x), x)
